@@ -89,6 +89,9 @@ Cmp(a, b) == SCmp(a, b)                            \* -1, 0, 1
 
 \* which operations the property speaks of: + - * for all eight, negation "of signed ones"
 HasOp(t, op) == op \in {"add", "sub", "mul"} \/ (op = "neg" /\ TSigned(t))
+\* U11 is the one unsigned type with a Neg impl.  The property does not say what it computes, so only the
+\* types' range invariant is demanded of it: the call panics or returns a value inside [MIN, MAX].
+RangeOnlyOp(t, op) == op = "neg" /\ t = "U11"
 Op(t, op, x, y, debug) == GOp(TBits(t), TSigned(t), op, x, y, debug)
 
 ---------------------------------------------------------------------------
